@@ -481,9 +481,46 @@ def loaded_pass(ctx):
         shutil.rmtree(tmp, ignore_errors=True)
 
 
+def refused_item_pass(ctx):
+    """`c[i] = x` with an x the feature cannot take, on every declaration, every position (negative, out of range): the call
+    raises and the collection is what it was — contents, order, length, index of every element"""
+    from pyecore import ecore as E
+    mm = metamodel()
+    for cfg in CONFIGS:
+        for n in range(0, 4):
+            for i in range(-(n + 1), n + 2):
+                owner = mm['A']()
+                c = getattr(owner, feat_name(cfg))
+                elems = [10 ** 6 + k for k in range(n)] if cfg[2] == 'attr' else [mm['B']() for _ in range(n)]
+                for e in elems:
+                    c.append(e)
+                bad = 'not an int' if cfg[2] == 'attr' else mm['A']()
+                before = list(c)
+                ctx.evaluations += 1
+                try:
+                    c[i] = bad
+                    outcome = 'accepted'
+                except Exception as e:
+                    outcome = type(e).__name__
+                after = list(c)
+                same = len(after) == len(before) and all(a is b or a == b for a, b in zip(after, before))
+                idx_ok = True
+                try:
+                    idx_ok = all(c.index(e) == k for k, e in enumerate(before)) and len(c) == n
+                except Exception:
+                    idx_ok = False
+                if outcome == 'accepted' or not same or not idx_ok:
+                    ctx.violate({'clause': 'refused-changed', 'op': 'setitem', 'unique': cfg[1], 'ordered': cfg[0]},
+                                f'{feat_name(cfg)}: c[{i}] = <a value of the wrong type> on {n} elements: {outcome}; contents unchanged: {same}; '
+                                f'index() of every element unchanged: {idx_ok}', {'refused_item': feat_name(cfg), 'n': n, 'i': i})
+                    return
+    ctx.nontriv(('refused-item',))
+
+
 def run(ctx):
     common.use_repo()
     proxy_back_pass(ctx)
+    refused_item_pass(ctx)
     loaded_pass(ctx)
     redeclare_pass(ctx)
     rng = common.sub_rng(ctx.seed, 'C04')
